@@ -3,6 +3,7 @@ package mon
 import (
 	"bytes"
 	"fmt"
+	"sync"
 
 	"github.com/brocaar/lorawan/applayer/fragmentation"
 
@@ -13,7 +14,7 @@ import (
 func init() {
 	core.Register(&core.Property{
 		ID:          "C19",
-		Rule:        "fragmentation.Encode on fragment size 1..64 x fragment count 1..300 x redundancy 0..100 with seeded random data, plus firmware-update-sized sessions (fragment size 48..242, 400..2047 fragments, redundancy up to 300) (quick: 3000 sampled (size,count,redundancy) triples + every count 1..130 at sizes 4 and 10 + every size 1..64 at counts 8 and 10; thorough: the complete size x count grid once plus 200k erasure trials). Oracles: systematic prefix, parity row == XOR of the rows selected by an independent implementation of the TS004 matrix_line/prbs23 pseudo code, linearity Encode(a^b)=Encode(a)^Encode(b), and an independent GF(2) Gaussian-elimination decoder that must rebuild the block from every full-rank random erasure pattern. Invalid sizes (0, negative, non-dividing) and negative redundancy must give an error or no parity, never a panic. Distinct = (size, count power-of-two?, count, redundancy class).",
+		Rule:        "fragmentation.Encode on fragment size 1..64 x fragment count 1..300 x redundancy 0..100 with seeded random data, plus firmware-update-sized sessions (fragment size 48..242, 400..2047 fragments, redundancy up to 300) (quick: 3000 sampled (size,count,redundancy) triples + every count 1..130 at sizes 4 and 10 + every size 1..64 at counts 8 and 10; thorough: the complete size x count grid once plus 200k erasure trials). Oracles: systematic prefix, parity row == XOR of the rows selected by an independent implementation of the TS004 matrix_line/prbs23 pseudo code, linearity Encode(a^b)=Encode(a)^Encode(b), and an independent GF(2) Gaussian-elimination decoder that must rebuild the block from every full-rank random erasure pattern. Eight different sessions encoded 60 times each from eight goroutines at once must each give what the same call gives alone. Invalid sizes (0, negative, non-dividing) and negative redundancy must give an error or no parity, never a panic. Distinct = (size, count power-of-two?, count, redundancy class).",
 		Assumptions: []string{"TS004-1.0.0 §8 pseudo code (matrix_line, prbs23) as transcribed in harness/spec/frag.go"},
 		MinEvals:    500,
 		Run:         runC19,
@@ -247,6 +248,12 @@ func runC19(c *core.Ctx) {
 		}
 	}
 
+	// the same calls while other goroutines encode other images: every call still returns what it returns
+	// when it runs alone (which the cases above compare with the TS004 model)
+	if c.Whole("concurrent") {
+		c19Concurrent(c)
+	}
+
 	// invalid arguments
 	if c.Whole("invalid") {
 		type tc struct {
@@ -285,4 +292,59 @@ func runC19(c *core.Ctx) {
 			c.Violate("C19|panic|empty-data", "%s", msg)
 		}
 	}
+}
+
+func c19Concurrent(c *core.Ctx) {
+	type job struct {
+		data      []byte
+		size, red int
+		want      [][]byte
+	}
+	r := c.RNG("concurrent", 0)
+	var jobs []job
+	for _, t := range [][3]int{{4, 8, 10}, {10, 16, 12}, {7, 33, 20}, {16, 100, 30}, {3, 5, 9}, {48, 64, 16}, {1, 2, 40}, {12, 127, 25}} {
+		j := job{data: r.Bytes(t[0] * t[1]), size: t[0], red: t[2]}
+		var err error
+		if p, _ := core.Guard(func() { j.want, err = fragmentation.Encode(append([]byte{}, j.data...), j.size, j.red) }); p || err != nil {
+			return // judged by the sequential cases
+		}
+		jobs = append(jobs, j)
+	}
+	const rounds = 60
+	bad := make([]string, len(jobs))
+	var wg sync.WaitGroup
+	for gi := range jobs {
+		wg.Add(1)
+		go func(gi int) {
+			defer wg.Done()
+			j := jobs[gi]
+			for k := 0; k < rounds && bad[gi] == ""; k++ {
+				var got [][]byte
+				var err error
+				if p, msg := core.Guard(func() { got, err = fragmentation.Encode(append([]byte{}, j.data...), j.size, j.red) }); p || err != nil {
+					bad[gi] = fmt.Sprintf("round %d: err=%v %s", k, err, msg)
+					return
+				}
+				if len(got) != len(j.want) {
+					bad[gi] = fmt.Sprintf("round %d: %d fragments, alone %d", k, len(got), len(j.want))
+					return
+				}
+				for i := range got {
+					if !bytes.Equal(got[i], j.want[i]) {
+						bad[gi] = fmt.Sprintf("round %d: fragment %d is %x, alone %x", k, i+1, got[i], j.want[i])
+						return
+					}
+				}
+			}
+		}(gi)
+	}
+	wg.Wait()
+	c.Eval(int64(len(jobs) * rounds))
+	for gi, b := range bad {
+		if b != "" {
+			c.Violate("C19|concurrent", "Encode(size=%d, fragments=%d, redundancy=%d) called while %d other goroutines encode other data differs from the same call made alone: %s", jobs[gi].size, len(jobs[gi].data)/jobs[gi].size, jobs[gi].red, len(jobs)-1, b)
+			break
+		}
+	}
+	c.Shape("concurrent", len(jobs), rounds)
 }
